@@ -11,6 +11,8 @@ element.
 
 from __future__ import annotations
 
+from ..collect import guarded_async
+
 import functools as F
 import itertools as I
 import operator
@@ -734,7 +736,7 @@ def run_shard(desc: dict, col) -> None:  # noqa: ANN001
     async def main() -> None:
         for i, case in enumerate(all_cases(desc["tier"], desc["seed"])):
             if i % desc["of"] == desc["shard"]:
-                await run_case(case, col)
+                await guarded_async(col, case, run_case, case, col)
 
     anyio.run(main)
 
@@ -743,7 +745,7 @@ def replay(case: dict, col) -> None:  # noqa: ANN001
     import anyio
 
     async def main() -> None:
-        await run_case(case, col)
+        await guarded_async(col, case, run_case, case, col)
 
     anyio.run(main)
 
